@@ -53,7 +53,8 @@ class Subject:
     """The real environment for one Spec plus the independent decoders."""
 
     def __init__(self, spec, route="yaml", fully_obs=False, flat_actions=True,
-                 flat_obs=True, scenario=None, keep_file=False):
+                 flat_obs=True, scenario=None, keep_file=False,
+                 render_mode=None):
         import nasim
         from nasim.envs import NASimEnv
         self.spec = spec
@@ -77,7 +78,10 @@ class Subject:
         else:
             self.scenario = spec.to_scenario()
         self.env = NASimEnv(self.scenario, fully_obs=fully_obs,
-                            flat_actions=flat_actions, flat_obs=flat_obs)
+                            flat_actions=flat_actions, flat_obs=flat_obs,
+                            render_mode=render_mode)
+        if render_mode is not None:
+            self.modes["render_mode"] = render_mode
         self.lay = Layout(spec)
         self.model = Model(spec)
         self.actions = list(self.env.action_space.actions)
@@ -93,10 +97,18 @@ class Subject:
 
     # ------------------------------------------------------------------
     def reset(self, seed=None):
+        np.random.seed(90210)
+        st0 = np.random.get_state()
         if seed is None:
             out = self.env.reset()
         else:
             out = self.env.reset(seed=seed)
+        st1 = np.random.get_state()
+        # (position, key): did the reset draw from / re-seed NumPy's global
+        # generator?
+        self.reset_touched_rng = (st0[2] != st1[2]) or \
+            (st0[1].tobytes() != st1[1].tobytes())
+        self.reset_was_seeded = seed is not None
         self.hist = ()
         self.step_calls = 0
         return out
